@@ -23,7 +23,8 @@ Record world := {
   w_podsC : list (N * pod);       (* pod informer cache *)
   w_podsA : list (N * pod);       (* API server *)
   w_knodes : list N;              (* Kubernetes nodes in the node informer cache *)
-  w_cnodesA : list N              (* Calico Node resources in the datastore (client.Nodes().Get) *)
+  w_cnodesA : list (N * bool)     (* Calico Node resources in the datastore (client.Nodes().Get): name -> has a
+                                     Kubernetes OrchRef (true) or is not a Kubernetes node (false) *)
 }.
 
 (* ---------- blocks as delivered by the syncer ---------- *)
@@ -56,7 +57,8 @@ Record alloc := { a_id : id; a_attrs : attrs; a_seq : N;
                   a_conf : bool }.          (* confirmedLeak *)
 
 Record ctrl := {
-  c_cnodes : list N;               (* keys of kubernetesNodesByCalicoName (values are the same name) *)
+  c_cnodes : list (N * bool);      (* kubernetesNodesByCalicoName: Calico node -> true: Kubernetes node of the same name,
+                                      false: "" (the Calico node is not a Kubernetes node) *)
   c_blocks : list (N * block);     (* allBlocks *)
   c_allocs : list alloc;           (* allocationsByBlock, flattened (the block is part of the id) *)
   c_bynode : list (N * id);        (* allocationState.allocationsByNode as a relation *)
@@ -131,7 +133,7 @@ Definition set_full (c : ctrl) (v : bool) : ctrl :=
   {| c_cnodes := c_cnodes c; c_blocks := c_blocks c; c_allocs := c_allocs c; c_bynode := c_bynode c; c_dirty := c_dirty c;
      c_byhandle := c_byhandle c; c_conf := c_conf c; c_nbb := c_nbb c; c_bbn := c_bbn c; c_empty := c_empty c;
      c_tracker := c_tracker c; c_full := v |}.
-Definition set_cnodes (c : ctrl) (v : list N) : ctrl :=
+Definition set_cnodes (c : ctrl) (v : list (N * bool)) : ctrl :=
   {| c_cnodes := v; c_blocks := c_blocks c; c_allocs := c_allocs c; c_bynode := c_bynode c; c_dirty := c_dirty c;
      c_byhandle := c_byhandle c; c_conf := c_conf c; c_nbb := c_nbb c; c_bbn := c_bbn c; c_empty := c_empty c;
      c_tracker := c_tracker c; c_full := c_full c |}.
@@ -291,9 +293,19 @@ Definition allocation_is_valid (w : world) (a : alloc) (prefer_cache : bool) : b
   else if negb (is_pod_ip a) then true
   else pod_valid (if prefer_cache then w_podsC w else w_podsA w) a.
 
-(* kubernetesNodeForCalico: every Calico node of the domain has a Kubernetes OrchRef with the same name *)
-Definition knode_for (w : world) (c : ctrl) (cn : N) : N :=
-  if nmem cn (c_cnodes c) then cn else if nmem cn (w_cnodesA w) then cn else 0.
+(* kubernetesNodeForCalico.  A cached non-empty name is returned; otherwise (no entry, or the "" cached for a Calico
+   node that is not a Kubernetes node) the Calico node is looked up in the datastore: absent -> "" (KNode 0),
+   with a Kubernetes OrchRef -> that name, without -> ErrorNotKubernetes (KErr). *)
+Inductive klookup := KNode (kn : N) | KErr.
+Definition knode_for (w : world) (c : ctrl) (cn : N) : klookup :=
+  match mget cn (c_cnodes c) with
+  | Some true => KNode cn
+  | _ => match mget cn (w_cnodesA w) with
+         | None => KNode 0
+         | Some true => KNode cn
+         | Some false => KErr
+         end
+  end.
 
 (* ---------- checkAllocations, one node ---------- *)
 
@@ -328,14 +340,20 @@ Definition confirm_tunnel (c : ctrl) (i : id) : ctrl :=
   end.
 
 (* returns the new state and whether the node goes to nodesToRelease *)
-Definition check_node (w : world) (grace : option N) (c : ctrl) (cn : N) : ctrl * bool :=
-  let kn := knode_for w c cn in
+Definition check_node_k (w : world) (grace : option N) (c : ctrl) (cn : N) (kn : N) : ctrl * bool :=
   let kexists := negb (N.eqb kn 0) && nmem kn (w_knodes w) in
   let '(c1, can, tun) := fold_left (check_alloc w grace kn kexists) (ri_ids cn (c_bynode c)) (c, true, []) in
   if negb kexists then
     if negb can then (mark_clean cn c1, false)
     else (fold_left confirm_tunnel tun c1, true)
   else (mark_clean cn c1, false).
+
+(* a lookup error (not a Kubernetes node) skips the node *)
+Definition check_node (w : world) (grace : option N) (c : ctrl) (cn : N) : ctrl * bool :=
+  match knode_for w c cn with
+  | KErr => (mark_clean cn c, false)
+  | KNode kn => check_node_k w grace c cn kn
+  end.
 
 Definition check_nodes (w : world) (grace : option N) (ns : list N) (c : ctrl) : ctrl * list N :=
   fold_left (fun (st : ctrl * list N) cn =>
@@ -438,12 +456,16 @@ Definition rub_visit (w : world) (grace : option N) (st : ctrl * list N) (b : N)
   | None => st
   | Some n =>
       if Nat.leb (rn_count n (c_bbn c)) 1 then st
-      else let '(c1, ok) := mark_empty (w_now w) grace b c in
-           if negb ok then (c1, calls)
-           else match mget b (c_blocks c1) with
-                | None => (c1, calls)
-                | Some _ => (forget_block b c1, calls ++ [b])
-                end
+      else match knode_for w c n with
+           | KErr => (set_tracker c (mdel b (c_tracker c)), calls)   (* nodeIsBeingMigrated fails: markInUse *)
+           | KNode _ =>
+               let '(c1, ok) := mark_empty (w_now w) grace b c in
+               if negb ok then (c1, calls)
+               else match mget b (c_blocks c1) with
+                    | None => (c1, calls)
+                    | Some _ => (forget_block b c1, calls ++ [b])
+                    end
+           end
   end.
 
 Definition release_unused_blocks (w : world) (grace : option N) (order : list N) (c : ctrl) : ctrl * list N :=
@@ -479,14 +501,15 @@ Definition sync_ipam (f : cfg) (w : world)
 Inductive event :=
 | EPod (api : bool) (p : N) (v : option pod)     (* pod appears/changes/disappears in the API (true) or the cache (false) *)
 | EKNode (n : N) (present : bool)                (* Kubernetes node in the node informer cache *)
-| ECNodeApi (n : N) (present : bool)             (* Calico node in the datastore *)
-| ECNodeSync (n : N) (present : bool)            (* syncer update for a Calico node: handleNodeUpdate *)
+| ECNodeApi (n : N) (v : option bool)            (* Calico node in the datastore: Some true = Kubernetes node,
+                                                    Some false = not a Kubernetes node, None = deleted *)
+| ECNodeSync (n : N) (v : option bool)           (* syncer update for a Calico node: handleNodeUpdate *)
 | EBlock (b : N) (v : option block)              (* syncer update for a block: handleBlockUpdate *)
 | EPodDeleted (n : N)                            (* pod deletion event: markDirtyPodDeleted *)
 | EFull                                          (* node deletion batch / periodic tick: fullScanNextSync *)
 | ETick (d : N).                                 (* time passes *)
 
-Definition set_world (w : world) (now : N) (pc pa : list (N * pod)) (kn ca : list N) : world :=
+Definition set_world (w : world) (now : N) (pc pa : list (N * pod)) (kn : list N) (ca : list (N * bool)) : world :=
   {| w_now := now; w_podsC := pc; w_podsA := pa; w_knodes := kn; w_cnodesA := ca |}.
 
 Definition apply_event (fixaff : bool) (e : event) (wc : world * ctrl) : world * ctrl :=
@@ -498,10 +521,10 @@ Definition apply_event (fixaff : bool) (e : event) (wc : world * ctrl) : world *
   | EPod false p None => (set_world w (w_now w) (mdel p (w_podsC w)) (w_podsA w) (w_knodes w) (w_cnodesA w), c)
   | EKNode n true => (set_world w (w_now w) (w_podsC w) (w_podsA w) (nadd n (w_knodes w)) (w_cnodesA w), c)
   | EKNode n false => (set_world w (w_now w) (w_podsC w) (w_podsA w) (nrem n (w_knodes w)) (w_cnodesA w), c)
-  | ECNodeApi n true => (set_world w (w_now w) (w_podsC w) (w_podsA w) (w_knodes w) (nadd n (w_cnodesA w)), c)
-  | ECNodeApi n false => (set_world w (w_now w) (w_podsC w) (w_podsA w) (w_knodes w) (nrem n (w_cnodesA w)), c)
-  | ECNodeSync n true => (w, set_cnodes c (nadd n (c_cnodes c)))
-  | ECNodeSync n false => (w, set_cnodes c (nrem n (c_cnodes c)))
+  | ECNodeApi n (Some k) => (set_world w (w_now w) (w_podsC w) (w_podsA w) (w_knodes w) (mput n k (w_cnodesA w)), c)
+  | ECNodeApi n None => (set_world w (w_now w) (w_podsC w) (w_podsA w) (w_knodes w) (mdel n (w_cnodesA w)), c)
+  | ECNodeSync n (Some k) => (w, set_cnodes c (mput n k (c_cnodes c)))
+  | ECNodeSync n None => (w, set_cnodes c (mdel n (c_cnodes c)))
   | EBlock b (Some blk) => (w, on_block_updated fixaff b blk c)
   | EBlock b None => (w, forget_block b c)
   | EPodDeleted n => (w, mark_dirty n c)
